@@ -304,7 +304,10 @@ def ref_alpha_scale(X, y, refdf, fit_intercept=False):
             v = float(np.max(np.abs(g)))
     except Exception:
         v = 1.0
-    return v if np.isfinite(v) and v > 0 else 1.0
+    # a (numerically) zero null-model gradient (constant / zero targets) would make alpha ~ 1e-17, i.e. an
+    # effectively unpenalised problem: fall back to a unit scale
+    floor = 1e-9 * (1.0 + float(np.max(np.abs(Xd))) * float(np.max(np.abs(np.asarray(y, float)))) if np.size(y) else 1.0)
+    return v if np.isfinite(v) and v > floor else 1.0
 
 
 def null_intercept(refdf, Xd, y, iters=60):
